@@ -483,7 +483,7 @@ int main(int argc, char **argv)
 	for (int li = 0; li < N_SHAPE_LENS; li++)
 		for (int pat = 0; pat < PAT_N; pat++) {
 			int len = shape_lens[li];
-			if (pat != PAT_ZERO && pat != PAT_XS && pat != PAT_TEXT && pat != PAT_P258 && !(v_thorough && pat == PAT_P3))
+			if (pat != PAT_ZERO && pat != PAT_XS && pat != PAT_TEXT && pat != PAT_LOG && pat != PAT_P258 && !(v_thorough && pat == PAT_P3))
 				continue;
 			for (int ci = 0; ci < ncpu; ci++) {
 				if (!v_mine(unit++))
